@@ -726,7 +726,8 @@ class HistKind(Kind):
         if obs['final_n'] != n:
             return f'processed_traces = {obs["final_n"]} after {n} traces'
         same_classes = not (case['fam'] == 'part' and case['auto']) or obs.get('oneshot_partitions') == obs.get('partitions')
-        if same_classes and exact_regime(case) and obs['computes'] and not _same_bits(obs['computes'][-1]['vals'], obs['oneshot']):
+        ends_with_compute = case['computes'][-1] > 0          # (shrinking may leave updates after the last compute())
+        if same_classes and ends_with_compute and exact_regime(case) and not _same_bits(obs['computes'][-1]['vals'], obs['oneshot']):
             return ('all running sums are exactly representable, yet the last compute() of the split history differs from the '
                     "code's own one-batch result")
         return None
